@@ -180,6 +180,7 @@ class ContinuousSpace:
         delta = positions - point
 
         if self.torus:
+            delta = np.fmod(delta, self.size)
             inverse_delta = delta - np.sign(delta) * self.size
 
             # we need to use the lowest absolute value from delta and inverse delta
@@ -216,7 +217,7 @@ class ContinuousSpace:
             agents = np.asarray(agents)
 
         if self.torus:
-            delta = np.abs(point - positions)
+            delta = np.mod(np.abs(point - positions), self.size)
             delta = np.minimum(delta, self.size - delta, out=delta)
 
             # + is much faster than np.sum or array.sum
